@@ -79,7 +79,7 @@ impl<'a> Frame<'a> {
 //@ |            proof { let n1 = varint_len_from_first(s0[0]); let n2 = varint_len_from_first(s0.skip(n1)[0]); lemma_skip_skip(s0, n1, n2); lemma_skip_skip(s0, n1 + n2, varint_val(s0.skip(n1)) as int); }
 //@ |            let kind = kind.ok_or`
 //@ subst `|InvalidSessionId| IoReadError::Parse(ParseError::InvalidSessionId)` => `|_e: InvalidSessionId| -> (o: IoReadError) ensures o == IoReadError::Parse(ParseError::InvalidSessionId) { IoReadError::Parse(ParseError::InvalidSessionId) }`
-//@ subst `Self::MAX_PARSE_PAYLOAD_ALLOWED` => `4096`
+//@ rename `Self::MAX_PARSE_PAYLOAD_ALLOWED` => `4096`
 //@ resub `vec!\[0; (\w+)\]` => `vec_zeroed(\1)`
 //@ resub `(\w+)\.shrink_to_fit\(\);` => `vec_shrink_to_fit(&mut \1);`
 //@ resub `Cow::Owned\((\w+)\)` => `cow_owned(\1)`
